@@ -376,6 +376,39 @@ fn run_multi(plan: &Plan, lib: &dyn Lib, rec: &mut Rec) {
         let ok = verify_with(rec, &ad2, &msg);
         rec.expect("C07", "fails-with-signer-added", !ok, || format!("addition-of-stranger scheme={} g={} | n={} position {}: verified with an extra key", sch, g.name(), arrived.len(), p));
     }
+    // a signer ADDED whose key is computed from the others': pk_adv = -(sum of the honest keys). The accumulated key of
+    // {honest..., adversary} is the identity; presented with the identity multi-signature (which the library's own
+    // accumulator yields for the signatures of X and -X) the pairing equation holds for EVERY message
+    {
+        let mut acc = Pt::from_bytes(&exact[0]).unwrap();
+        for k in exact.iter().skip(1) {
+            acc = acc.add(&Pt::from_bytes(k).unwrap());
+        }
+        let mut rogue = exact.clone();
+        rogue.push(acc.neg().to_bytes());
+        let xk = key_of_class(rec, lib, g, 5, plan.seed ^ 0xAD7);
+        let nxk = refimpl::scalar_to_be(&(-refimpl::scalar_from_be(&xk).unwrap()));
+        let s1 = rec.call(lib, g, Op::Sign, &[&xk, &[scheme], &msg]).first().map(|v| v.to_vec());
+        let s2 = rec.call(lib, g, Op::Sign, &[&nxk, &[scheme], &msg]).first().map(|v| v.to_vec());
+        let id_ms = match (s1, s2) {
+            (Some(a), Some(b)) => rec.call(lib, g, Op::MultiSig, &[&a, &b]).first().map(|v| v.to_vec()),
+            _ => None,
+        }
+        .unwrap_or_else(|| refimpl::layout::tagged(scheme, &sum.sub(&sum).to_bytes()));
+        let args: Vec<&[u8]> = rogue.iter().map(|k| k.as_slice()).collect();
+        rec.case(&[7, g as u64, scheme as u64, arrived.len() as u64, 77, 2], true);
+        match rec.call(lib, g, Op::MultiPk, &args).first().map(|v| v.to_vec()) {
+            Some(mpk) => {
+                for m in [msg.clone(), b"any other message".to_vec()] {
+                    let o = rec.call(lib, g, Op::MultiVerify, &[&id_ms, &mpk, &m]);
+                    rec.expect("C07", "fails-with-signer-added", !o.is_ok(), || format!("addition-of-cancelling-key scheme={} g={} | n={}: identity multi-signature verified against the key set plus -(sum of its keys)", sch, g.name(), arrived.len()));
+                    let o = rec.call(lib, g, Op::MultiVerify, &[&ms, &mpk, &m]);
+                    rec.expect("C07", "fails-with-signer-added", !o.is_ok(), || format!("addition-of-cancelling-key scheme={} g={} | n={}: the multi-signature verified against the key set plus -(sum of its keys)", sch, g.name(), arrived.len()));
+                }
+            }
+            None => rec.probe("identity-accumulated-key-refused-at-accumulation"),
+        }
+    }
     let mut m2 = msg.clone();
     m2.push(0);
     let ok = verify_with(rec, &exact, &m2);
